@@ -58,10 +58,14 @@ def _fold(t: Term, what: str) -> bool:
 
 def check(model: Model, rep: Report, tier: str):
     rep.trust("spec: 'ALL' is the member of QubitChannel that names all channels")
-    _i1(model, rep)
-    _i2(model, rep)
-    _i3(model, rep)
-    _i4(model, rep)
+    with rep.isolated():
+        _i1(model, rep)
+    with rep.isolated():
+        _i2(model, rep)
+    with rep.isolated():
+        _i3(model, rep)
+    with rep.isolated():
+        _i4(model, rep)
 
 
 # ----------------------------------------------------------------------------------------------
